@@ -50,6 +50,14 @@ func cmdRollReal(f hx.Flags, r *hx.Result) {
 	}
 	defer os.RemoveAll(tmp)
 	nruns := f.Int("runs", 4)
+	// the zone the process lives in (file names carry local time; the retention scan compares ages) and the retention
+	rrMaxAge = int32(f.Int("maxage", 1000))
+	switch f.Str("zone", "") {
+	case "west":
+		time.Local = time.FixedZone("WEST", -11*3600)
+	case "east":
+		time.Local = time.FixedZone("EAST", 13*3600+45*60)
+	}
 	seconds := f.Int("seconds", 4)
 	runs := make([]*rrRun, nruns)
 	var wg sync.WaitGroup
@@ -87,16 +95,23 @@ func cmdRollReal(f hx.Flags, r *hx.Result) {
 	}
 }
 
+var rrMaxAge int32 = 1000
+
+// file names of the runs: plain, and with characters that mean something to a formatter
+var rrFileNames = []string{"rt.log", "web%2Fapi.log", "rt.log", "x%.0s.log", "rt.log", "100%.log", "a%%b%d.log"}
+
 func rollRealOne(r *hx.Result, dir string, k int, seed int64, seconds int) *rrRun {
+	fileName := rrFileNames[k%len(rrFileNames)]
 	_ = os.MkdirAll(dir, 0o755)
 	rng := rand.New(rand.NewSource(seed))
 	interval := 1 + k%2
 	writers := []int{1, 1, 2, 4, 8, 16}[k%6]
 	solo := writers == 1
-	app := &log.RollingFileAppender{Layout: &log.TextLayout{BaseLayout: log.BaseLayout{FileLineLength: 48}}, FileDir: dir, FileName: "rt.log",
-		Rotation: log.TimeRotation{Interval: time.Duration(interval) * time.Second}, MaxAge: 1000}
+	app := &log.RollingFileAppender{Layout: &log.TextLayout{BaseLayout: log.BaseLayout{FileLineLength: 48}}, FileDir: dir, FileName: fileName,
+		Rotation: log.TimeRotation{Interval: time.Duration(interval) * time.Second}, MaxAge: rrMaxAge}
 	// a file of the same name may already exist: its content must survive the Start
-	run := &rrRun{Interval: interval, Solo: solo, Desc: fmt.Sprintf("%d writers, interval %ds", writers, interval)}
+	run := &rrRun{Interval: interval, Solo: solo, Desc: fmt.Sprintf("%d writers, interval %ds, file name %q, zone %s, maxAge %d h", writers, interval, fileName, time.Local, rrMaxAge)}
+	run.Files, run.Writes = []int64{}, []rrWrite{} // never null in the dump, even when the directory ends up empty
 	run.T0 = time.Now().Unix()
 	if err := app.Start(); err != nil {
 		r.SetInfra("rolling start: %v", err)
@@ -195,9 +210,9 @@ func rollRealOne(r *hx.Result, dir string, k int, seed int64, seconds int) *rrRu
 	where := map[int64]*loc{}
 	for _, e := range ents {
 		name := e.Name()
-		ts := strings.TrimPrefix(name, "rt.log.")
+		ts := strings.TrimPrefix(name, fileName+".")
 		tm, err := time.ParseInLocation("20060102150405", ts, time.Local)
-		if !strings.HasPrefix(name, "rt.log.") || len(ts) != 14 || err != nil {
+		if !strings.HasPrefix(name, fileName+".") || len(ts) != 14 || err != nil {
 			r.Violate("file-name-law", run.Desc, "unexpected file name %q in the log directory", name)
 			continue
 		}
